@@ -13,6 +13,7 @@
 
 #include "schedule.h"
 #include "tasking_system_init.h"
+#include "detail/verif_hooks.h"
 
 namespace rkcommon {
   namespace tasking {
@@ -79,21 +80,30 @@ namespace rkcommon {
 
       auto mainLoop = [l, fcn]() {
         while (l->threadShouldBeAlive) {
+          RKCOMMON_VERIF_POINT("loop.top", l.get());
           if (!l->threadShouldBeAlive)
             return;
 
           if (l->shouldBeRunning) {
+            RKCOMMON_VERIF_POINT("loop.after_running_check", l.get());
             l->insideLoopBody = true;
+            RKCOMMON_VERIF_POINT("loop.published", l.get());
             fcn();
+            RKCOMMON_VERIF_POINT("loop.after_body", l.get());
             l->insideLoopBody = false;
+            RKCOMMON_VERIF_POINT("loop.unpublished", l.get());
           } else {
+            RKCOMMON_VERIF_POINT("loop.before_wait_lock", l.get());
             std::unique_lock<std::mutex> lock(l->runningMutex);
             l->runningCond.wait(lock, [&] {
+              RKCOMMON_VERIF_POINT("loop.in_predicate", l.get());
               return l->shouldBeRunning.load() ||
                      !l->threadShouldBeAlive.load();
             });
+            RKCOMMON_VERIF_POINT("loop.after_wait", l.get());
           }
         }
+        RKCOMMON_VERIF_POINT("loop.exit", l.get());
       };
 
       if (m == AUTO)
@@ -111,20 +121,26 @@ namespace rkcommon {
       // are atomic, because we need to sync with the condition variable waiting
       // state on the async thread. Otherwise we might signal and the thread
       // will miss it, since it wasn't watching.
+      RKCOMMON_VERIF_POINT("dtor.enter", loop.get());
       {
         std::unique_lock<std::mutex> lock(loop->runningMutex);
         loop->threadShouldBeAlive = false;
         loop->shouldBeRunning     = false;
+        RKCOMMON_VERIF_POINT("dtor.flags_cleared", loop.get());
       }
+      RKCOMMON_VERIF_POINT("dtor.before_notify", loop.get());
       loop->runningCond.notify_one();
 
+      RKCOMMON_VERIF_POINT("dtor.before_join", loop.get());
       if (backgroundThread.joinable()) {
         backgroundThread.join();
       }
+      RKCOMMON_VERIF_POINT("dtor.exit", loop.get());
     }
 
     inline void AsyncLoop::start()
     {
+      RKCOMMON_VERIF_POINT("start.enter", loop.get());
       if (!loop->shouldBeRunning) {
         // Note that the mutex here is still required even though these vars
         // are atomic, because we need to sync with the condition variable
@@ -132,20 +148,28 @@ namespace rkcommon {
         // thread will miss it, since it wasn't watching.
         {
           std::unique_lock<std::mutex> lock(loop->runningMutex);
+          RKCOMMON_VERIF_POINT("start.locked", loop.get());
           loop->shouldBeRunning = true;
+          RKCOMMON_VERIF_POINT("start.set", loop.get());
         }
+        RKCOMMON_VERIF_POINT("start.before_notify", loop.get());
         loop->runningCond.notify_one();
       }
+      RKCOMMON_VERIF_POINT("start.exit", loop.get());
     }
 
     inline void AsyncLoop::stop()
     {
+      RKCOMMON_VERIF_POINT("stop.enter", loop.get());
       if (loop->shouldBeRunning) {
         loop->shouldBeRunning = false;
+        RKCOMMON_VERIF_POINT("stop.flag_cleared", loop.get());
         while (loop->insideLoopBody.load()) {
+          RKCOMMON_VERIF_POINT("stop.spin", loop.get());
           std::this_thread::yield();
         }
       }
+      RKCOMMON_VERIF_POINT("stop.exit", loop.get());
     }
 
   }  // namespace tasking
